@@ -1,4 +1,5 @@
 import Stingray.Model.History
+import Stingray.Model.Odo
 /-!
 # C11 — schemas are immutable and results do not depend on what was processed before
 
@@ -48,6 +49,173 @@ theorem probe_history_independent (hist : List Op) (probe : Op) :
 /-- Parsing the same copybook text always yields the same names. -/
 theorem parse_deterministic (g g' : G) (es : List Entry) :
     (step g (.parse es)).2 = (step g' (.parse es)).2 := rfl
+
+/-! ## a `LocationMaker` object used again: the anchors of earlier records are still in it
+
+`LocationMaker.from_instance` does not empty `self.anchors`; a maker that laid out earlier records walks the next
+record with their anchors still present (`pre`).  Every name the walk defines is written again before it is looked
+up, so — whenever a fresh maker can lay the record out at all — the re-used maker computes the same sizes and leaves
+the same locations under every name of this record. -/
+section MakerReuse
+open Stingray.Layout
+
+theorem lookupLast_append_of_some (pre anch : Anch) (k : Key) (v : Sch × Nat) (h : lookupLast anch k = some v) :
+    lookupLast (pre ++ anch) k = some v := by
+  simp only [lookupLast, List.reverse_append, List.find?_append] at h ⊢
+  cases hf : List.find? (fun p => p.1 == k) anch.reverse with
+  | none => simp [hf] at h
+  | some x => simpa [hf] using h
+
+theorem readCounter_stale (decode : String → Inst → Nat) (inst : Inst) (pre anch : Anch) (c : String) (n : Nat)
+    (h : readCounter decode inst anch c = some n) : readCounter decode inst (pre ++ anch) c = some n := by
+  unfold readCounter at h ⊢
+  cases hl : lookupLast anch (.item c) with
+  | none => simp [hl] at h
+  | some v => rw [lookupLast_append_of_some pre anch _ v hl]; simpa [hl] using h
+
+mutual
+theorem walkM_stale (decode : String → Inst → Nat) (inst : Inst) (pre : Anch) :
+    ∀ (sch : Sch) (s : Nat) (anch : Anch) (sz : Nat) (out : Anch),
+      walkM decode inst sch s anch = some (sz, out) → walkM decode inst sch s (pre ++ anch) = some (sz, pre ++ out)
+  | .atomic a sz', s, anch, sz, out, h => by
+    simp only [walkM, Option.some.injEq, Prod.mk.injEq] at h ⊢
+    obtain ⟨h1, h2⟩ := h
+    subst h1 h2; simp
+  | .array a (.fixed n) it, s, anch, sz, out, h => by
+    simp only [walkM] at h ⊢
+    cases hw : walkM decode inst it s anch with
+    | none => simp [hw] at h
+    | some r =>
+      obtain ⟨isz, anch'⟩ := r
+      rw [walkM_stale decode inst pre it s anch isz anch' hw]
+      simp only [hw, Option.some.injEq, Prod.mk.injEq] at h ⊢
+      obtain ⟨h1, h2⟩ := h
+      subst h1 h2; simp
+  | .array a (.odo c) it, s, anch, sz, out, h => by
+    simp only [walkM] at h ⊢
+    cases hc : readCounter decode inst anch c with
+    | none => simp [hc] at h
+    | some n =>
+      rw [readCounter_stale decode inst pre anch c n hc]
+      cases hw : walkM decode inst it s anch with
+      | none => simp [hc, hw] at h
+      | some r =>
+        obtain ⟨isz, anch'⟩ := r
+        rw [walkM_stale decode inst pre it s anch isz anch' hw]
+        simp only [hc, hw, Option.some.injEq, Prod.mk.injEq] at h ⊢
+        obtain ⟨h1, h2⟩ := h
+        subst h1 h2; simp
+  | .object a ps, s, anch, sz, out, h => by
+    simp only [walkM] at h ⊢
+    cases hw : walkProps decode inst ps s anch with
+    | none => simp [hw] at h
+    | some r =>
+      obtain ⟨psz, anch'⟩ := r
+      rw [walkProps_stale decode inst pre ps s anch psz anch' hw]
+      simp only [hw, Option.some.injEq, Prod.mk.injEq] at h ⊢
+      obtain ⟨h1, h2⟩ := h
+      subst h1 h2; simp
+  | .oneOf a alts, s, anch, sz, out, h => by
+    simp only [walkM] at h ⊢
+    cases hw : walkAlts decode inst alts s anch with
+    | none => simp [hw] at h
+    | some r =>
+      obtain ⟨asz, anch'⟩ := r
+      rw [walkAlts_stale decode inst pre alts s anch asz anch' hw]
+      simp only [hw, Option.some.injEq, Prod.mk.injEq] at h ⊢
+      obtain ⟨h1, h2⟩ := h
+      subst h1 h2; simp
+  | .ref t, s, anch, sz, out, h => by
+    simp only [walkM, Option.some.injEq, Prod.mk.injEq] at h ⊢
+    obtain ⟨h1, h2⟩ := h
+    subst h1 h2; simp
+theorem walkProps_stale (decode : String → Inst → Nat) (inst : Inst) (pre : Anch) :
+    ∀ (ps : List (Key × Sch)) (s : Nat) (anch : Anch) (sz : Nat) (out : Anch),
+      walkProps decode inst ps s anch = some (sz, out) → walkProps decode inst ps s (pre ++ anch) = some (sz, pre ++ out)
+  | [], s, anch, sz, out, h => by
+    simp only [walkProps, Option.some.injEq, Prod.mk.injEq] at h ⊢
+    obtain ⟨h1, h2⟩ := h
+    subst h1 h2; simp
+  | (k, p) :: ps, s, anch, sz, out, h => by
+    simp only [walkProps] at h ⊢
+    cases hw : walkM decode inst p s anch with
+    | none => simp [hw] at h
+    | some r =>
+      obtain ⟨sz1, anch1⟩ := r
+      rw [walkM_stale decode inst pre p s anch sz1 anch1 hw]
+      cases hw2 : walkProps decode inst ps (s + sz1) anch1 with
+      | none => simp [hw, hw2] at h
+      | some r2 =>
+        obtain ⟨sz2, anch2⟩ := r2
+        simp only [walkProps_stale decode inst pre ps (s + sz1) anch1 sz2 anch2 hw2]
+        simp only [hw, hw2, Option.some.injEq, Prod.mk.injEq] at h ⊢
+        exact ⟨h.1, by rw [h.2]⟩
+theorem walkAlts_stale (decode : String → Inst → Nat) (inst : Inst) (pre : Anch) :
+    ∀ (alts : List Sch) (s : Nat) (anch : Anch) (sz : Nat) (out : Anch),
+      walkAlts decode inst alts s anch = some (sz, out) → walkAlts decode inst alts s (pre ++ anch) = some (sz, pre ++ out)
+  | [], s, anch, sz, out, h => by
+    simp only [walkAlts, Option.some.injEq, Prod.mk.injEq] at h ⊢
+    obtain ⟨h1, h2⟩ := h
+    subst h1 h2; simp
+  | a :: as, s, anch, sz, out, h => by
+    simp only [walkAlts] at h ⊢
+    cases hw : walkM decode inst a s anch with
+    | none => simp [hw] at h
+    | some r =>
+      obtain ⟨sz1, anch1⟩ := r
+      rw [walkM_stale decode inst pre a s anch sz1 anch1 hw]
+      cases hw2 : walkAlts decode inst as s anch1 with
+      | none => simp [hw, hw2] at h
+      | some r2 =>
+        obtain ⟨sz2, anch2⟩ := r2
+        simp only [walkAlts_stale decode inst pre as s anch1 sz2 anch2 hw2]
+        simp only [hw, hw2, Option.some.injEq, Prod.mk.injEq] at h ⊢
+        exact ⟨h.1, by rw [h.2]⟩
+end
+
+/-- **C11 (a re-used maker, any history of records).**  Whatever records ONE `LocationMaker` laid out before (its anchors
+`st` are arbitrary), every record that a fresh maker can lay out gets the size the fresh maker gives it. -/
+theorem maker_reuse_sizes (decode : String → Inst → Nat) (sch : Sch) (st : Anch) (recs : List Inst)
+    (hok : ∀ r ∈ recs, (walkM decode r sch 0 []).isSome) :
+    (makerRun decode sch st recs).2 = recs.map fun r => rowLength decode sch r := by
+  induction recs generalizing st with
+  | nil => simp [makerRun]
+  | cons r rs ih =>
+    have hr := hok r (by simp)
+    cases hw : walkM decode r sch 0 [] with
+    | none => simp [hw] at hr
+    | some p =>
+      obtain ⟨sz, out⟩ := p
+      have h2 := walkM_stale decode r st sch 0 [] sz out hw
+      simp only [List.append_nil] at h2
+      simp only [makerRun, h2, List.map_cons, rowLength, hw, Option.map_some]
+      rw [ih (st ++ out) (fun r' hr' => hok r' (by simp [hr']))]
+      simp [rowLength]
+
+/-- … and under every name the record's own walk defines, the re-used maker holds the location a fresh maker holds
+(`lookupLast`: the dict keeps the last assignment). -/
+theorem maker_reuse_lookup (decode : String → Inst → Nat) (sch : Sch) (st : Anch) (r : Inst) (sz : Nat) (out : Anch)
+    (k : Key) (v : Sch × Nat) (hw : walkM decode r sch 0 [] = some (sz, out)) (hk : lookupLast out k = some v) :
+    ∃ out', walkM decode r sch 0 st = some (sz, out') ∧ lookupLast out' k = some v := by
+  have h2 := walkM_stale decode r st sch 0 [] sz out hw
+  simp only [List.append_nil] at h2
+  exact ⟨st ++ out, h2, lookupLast_append_of_some st out k v hk⟩
+
+/-- non-vacuity: `05 N PIC 9. 05 T PIC XX OCCURS 0 TO 5 DEPENDING ON N. 05 Z PIC X.` — one maker lays out a record
+with N = 2, then one with N = 0, then one with N = 1: sizes 6, 2, 4, the sizes fresh makers give; and the hypotheses of
+`maker_reuse_lookup` are met (`Z` of the N = 0 record is at 1 although the maker still holds `Z` at 5 from the first). -/
+def reuseSample : Item :=
+  .group "R" none [(.elem "N" none 1, []), (.elem "T" (some (.odo "N")) 2, []), (.elem "Z" none 1, [])]
+def reuseDecode : String → Inst → Nat := fun _ bytes => bytes.foldl (fun a b => a * 10 + b % 16) 0
+
+example : (makerRun reuseDecode (emit reuseSample) [] [[0xF2, 1, 2, 3, 4, 9], [0xF0, 9], [0xF1, 5, 6, 9]]).2
+    = [some 6, some 2, some 4] := by decide
+example : ∃ sz out, walkM reuseDecode [0xF0, 9] (emit reuseSample) 0 [] = some (sz, out) ∧
+    (lookupLast out (.item "Z")).map (·.2) = some 1 := ⟨_, _, rfl, by decide⟩
+example : ∃ sz out, walkM reuseDecode [0xF2, 1, 2, 3, 4, 9] (emit reuseSample) 0 [] = some (sz, out) ∧
+    (lookupLast out (.item "Z")).map (·.2) = some 5 := ⟨_, _, rfl, by decide⟩
+
+end MakerReuse
 
 /-! ## the pinned commit violated both (regression witnesses, decided by evaluation) -/
 
